@@ -7,6 +7,7 @@ import Driver.Table
 import Driver.Lookup
 import Driver.C11
 import Driver.C08
+import Driver.C09
 /-! Line-protocol driver. Usage: `drv <property>`; stdin: `op args… | impl-output`;
     stdout: one `MISMATCH`/`MONITOR` line per problem and a final `DONE` summary with coverage tags. -/
 open Drv
@@ -89,6 +90,8 @@ def main (args : List String) : IO UInt32 := do
   | ["lookup"] => finish (← loopStateful Drv.Lookup.step h {} {})
   | ["C11"] => finish (← loopStateless Drv.C11.step h {})
   | ["C08"] => finish (← loopStateless Drv.C08.step h {})
+  | ["C09"] => finish (← loopStateless (Drv.C09.step false) h {})
+  | ["C09", "quirk"] => finish (← loopStateless (Drv.C09.step true) h {})
   | ["inrange"] => finish (← loopStateless Drv.Store.inRangeStep h {})
   | ["store", prop] => finish (← loopStateful (Drv.Store.step prop) h {} {})
   | _ => IO.eprintln "usage: drv <property>"; return 2
